@@ -43,6 +43,7 @@ def run(ctx):
                        "distinct = (configuration, operation, outcome) classes of edges / simulated behaviours by (length, last op)")
     F.run_configs(ctx, PID, configs(ctx))
     F.run_recorded(ctx, PID, "random-wide", 60 if ctx.quick else 3000, 40 if ctx.quick else 60, F.NONDAMAGE + F.SPEDITS + ["move", "clone", "stray"])
+    F.large_workspace(ctx, PID)
     ctx.cov["binding_selftest"] = F.selftest(ctx, PID)
 
 
